@@ -313,6 +313,10 @@ Definition http_send_response (o : sopts) (w : world) (c : conn) : world * list 
   let c1 := set_tx c (c_rx c) (response_message r 0) (c_tx_body c) (c_keep c) in
   http_send o w c1 [SHeader] (rs_status r =? code_CONTINUE).
 
+(* a body handed over in three buffers *)
+Definition parts3 (body : str) : list str :=
+  let n := (length body / 3)%nat in [firstn n body; firstn n (skipn n body); skipn (2 * n) body].
+
 Definition unsolicited : recipe := mk_recipe 408 0 1 [].
 
 Definition custom_reason : str := [67; 117; 115; 116; 111; 109].
@@ -340,14 +344,15 @@ Definition app_respond (o : sopts) (w : world) (c : conn) (rp : recipe) : world 
              then http_send o w (set_tx c (c_rx c) hdr (c_tx_body c) (c_keep c)) [SHeader] is_cont
              else http_send o w (set_tx c (c_rx c) hdr body (c_keep c)) [SHeader; SBody] is_cont
     | 2 =>
-        let keep := c_keep c ++ [body] in
+        (* the scatter overload: the application keeps the body, in three buffers *)
+        let keep := c_keep c ++ parts3 body in
         let k := length (c_keep c) in
         if negb (tx_response_is_valid resp0) then (upd w (set_tx c (c_rx c) (c_tx_header c) (c_tx_body c) keep), [], false)
         else let r := with_version c resp0 in
              let hdr := response_message r (nlen body) in
              if rv_is_head (c_rx c) || negb (content_permitted (rp_status rp))
              then http_send o w (set_tx c (c_rx c) hdr (c_tx_body c) keep) [SHeader] is_cont
-             else http_send o w (set_tx c (c_rx c) hdr (c_tx_body c) keep) [SHeader; SApp k] is_cont
+             else http_send o w (set_tx c (c_rx c) hdr (c_tx_body c) keep) [SHeader; SApp k; SApp (S k); SApp (S (S k))] is_cont
     | 3 =>
         let resp1 := add_header resp0 hf_HEADER_TRANSFER_ENCODING hf_CHUNKED in
         if negb (tx_response_is_valid resp1) then (w, [], false)
